@@ -1,5 +1,6 @@
 import GlueVerif.Sexp
 import GlueVerif.Model.ArrayUtil
+import GlueVerif.Model.ArrayLayout
 /-! Line-protocol driver for C20 (chunk / slice / broadcast helpers). -/
 open GlueVerif GlueVerif.Sexp GlueVerif.ArrayUtil
 
@@ -37,6 +38,153 @@ def viewItem? : Sexp → Option ViewItem
   | .list [.atom "i", n] => n.toInt?.map .int
   | .list [.atom "s", a, b, c] => do some (.slice (← a.toOptInt?) (← b.toOptInt?) (← c.toOptInt?))
   | _ => none
+
+/-! ## Round 3: family `lay` — every array helper under every memory layout -/
+
+def layout? : Sexp → Option Layout
+  | .list [o, perm, step, rev, bc, sw, ro] => do
+    let f ← match o with | .atom "C" => some false | .atom "F" => some true | _ => none
+    some ⟨f, ← perm.toNats?, ← step.toNats?, ← rev.toBools?, ← bc.toBools?, ← sw.toBool?, ← ro.toBool?⟩
+  | _ => none
+
+def layoutClass (l : Layout) : String :=
+  let permuted := l.perm != List.range l.perm.length
+  let stepped := l.step.any (· != 0)
+  if l.bcast.any id then "bcast"
+  else if permuted && stepped then "perm-step"
+  else if permuted && l.rev.any id then "perm-rev"
+  else if permuted then "perm"
+  else if stepped then "step"
+  else if l.rev.any id then "rev"
+  else if l.swapped then "swapped"
+  else if l.fortran then "fortran"
+  else if l.readonly then "readonly"
+  else "plain"
+
+def optNatsE (cs : List (Option Nat)) : Sexp :=
+  .list (cs.map fun c => match c with | some k => ofNat k | none => .atom "N")
+def optIntsE (cs : List (Option Int)) : Sexp :=
+  .list (cs.map fun c => match c with | some k => ofInt k | none => .atom "N")
+def parseOptNats (e : Sexp) : Option (List (Option Nat)) :=
+  e.toList?.bind (·.mapM fun x => match x with
+    | .atom "N" => some none
+    | y => y.toNat?.map some)
+def parseOptInts (e : Sexp) : Option (List (Option Int)) :=
+  e.toList?.bind (·.mapM fun x => x.toOptInt?)
+def ndArr? (sh vs : Sexp) : Option NdArr := do some ⟨← sh.toNats?, ← vs.toInts?⟩
+def ndArrE (a : NdArr) : Sexp := .list [ofNats a.shape, ofInts a.vals]
+
+/-- `expand` (block recursion, what the theorems are about) agrees with the index-wise definition of
+broadcasting on this case. -/
+def expandAgrees (ushape shape : List Nat) (u : List Int) : Bool :=
+  (expand ushape shape u).map some == expandByIndex ushape shape u
+
+def stepLay (helper : String) (l : Layout) (a : NdArr) (vs extra pyout : Sexp) : String :=
+  let nd := a.shape.length
+  let inP := a.wf && l.perm.length ≤ nd && l.step.length ≤ nd && l.rev.length ≤ nd &&
+    l.bcast.length ≤ nd && constAlong l.bcast a.shape a.vals
+  let br := helper ++ "-" ++ layoutClass l
+  let out (impl : Sexp) (ok implok : Bool) : String :=
+    driverResult (.list [vs, impl]) ok implok inP br
+  match helper with
+  | "uniq" =>
+    let m := uniqueNd l a
+    let ok := match pyout with
+      | .list [pc, ps, pk] =>
+        match pc.toInts?, ps.toNats?, pk.toNats? with
+        | some c, some s, some k => specUniqueNd a (c, s, k)
+        | _, _, _ => false
+      | _ => false
+    out (.list [ofInts m.1, ofNats m.2.1, ofNats m.2.2]) ok (specUniqueNd a m)
+  | "cat" =>
+    -- the categorical array itself must hold the logical values; then categories / codes
+    let m := uniqueNd l a
+    let ok := match pyout with
+      | .list [pv, pc, ps, pk] =>
+        match pv.toInts?, pc.toInts?, ps.toNats?, pk.toNats? with
+        | some v, some c, some s, some k => v == a.vals && specUniqueNd a (c, s, k)
+        | _, _, _, _ => false
+      | _ => false
+    out (.list [ofInts a.vals, ofInts m.1, ofNats m.2.1, ofNats m.2.2]) ok (specUniqueNd a m)
+  | "der" =>
+    match extra with
+    | .list (pv :: _) =>
+      match pv.toInts? with
+      | some parent =>
+        let m := derivedNd l parent a
+        let ok := match pyout with
+          | .list [pc, ps, pk] =>
+            match pc.toInts?, ps.toNats?, parseOptNats pk with
+            | some c, some s, some k => specDerivedNd a (c, s, k)
+            | _, _, _ => false
+          | _ => false
+        out (.list [ofInts m.1, ofNats m.2.1, optNatsE m.2.2]) ok
+          (specDerivedNd a m == a.vals.all (fun x => parent.contains x))
+      | none => bad "lay-der-parent"
+    | _ => bad "lay-der-extra"
+  | "look" =>
+    match extra.toInts? with
+    | some items =>
+      let m := lookupNd l items a
+      let ok := match pyout with
+        | .list [ps, pk] =>
+          match ps.toNats?, parseOptNats pk with
+          | some s, some k => specLookupNd items a (s, k)
+          | _, _ => false
+        | _ => false
+      out (.list [ofNats m.1, optNatsE m.2]) ok (specLookupNd items a m)
+    | none => bad "lay-look-items"
+  | "unb" =>
+    let u := unbroadcastNd l a
+    let ok := match pyout with
+      | .list [us, uv] =>
+        match ndArr? us uv with
+        | some pu => specUnbNd a pu
+        | none => false
+      | _ => false
+    out (ndArrE u) ok (specUnbNd a u && expandAgrees u.shape a.shape u.vals)
+  | "bam" =>
+    match extra with
+    | .list [bs, bv] =>
+      match ndArr? bs bv with
+      | some b =>
+        -- hypothesis of the Spec: the LOGICAL arrays are numpy-broadcastable.  Outside it (an axis that is
+        -- only compatible because it is a stride-0 axis) the documented behaviour "broadcast the
+        -- unbroadcast arrays" is all there is to compare with: p = F, verdict = agreement with the model.
+        let compatible := (broadcastArraysNd a b).isSome
+        let outP (impl : Sexp) (ok implok : Bool) : String :=
+          driverResult (.list [vs, impl]) ok implok (inP && compatible) br
+        match bamNd l a b with
+        | none => outP (.atom "value-error") (pyout == .atom "value-error") true
+        | some (ra, rb) =>
+          let z := bamZeroStride l a ra.shape
+          let n := ra.shape.length
+          let ok := match pyout with
+            | .list [.list [s1, v1], .list [s2, v2], _] =>
+              match ndArr? s1 v1, ndArr? s2 v2 with
+              | some p1, some p2 =>
+                if compatible then specBamNd a b p1 p2 else decide (p1 = ra) && decide (p2 = rb)
+              | _, _ => false
+            | _ => false
+          let ua := unbroadcastNd l a
+          outP (.list [ndArrE ra, ndArrE rb, ofBools z]) ok
+            ((specBamNd a b ra rb || !compatible) && expandAgrees (padShape n ua.shape) ra.shape ua.vals &&
+              expandAgrees (padShape n b.shape) rb.shape b.vals)
+      | none => bad "lay-bam-b"
+    | _ => bad "lay-bam-extra"
+  | "sorted" =>
+    let m := sortedNd l a
+    out (ofBool m) (pyout == ofBool m) true
+  | "coerce" =>
+    let m := coerceNd l a
+    let ok := match pyout with
+      | .list [ps, pk] =>
+        match ps.toNats?, parseOptInts pk with
+        | some s, some k => s == m.1 && k == m.2
+        | _, _ => false
+      | _ => false
+    out (.list [ofNats m.1, optIntsE m.2]) ok true
+  | _ => bad "lay-helper"
 
 def step (line : String) : String :=
   match Sexp.parse line with
@@ -157,6 +305,10 @@ def step (line : String) : String :=
         (specLookup cats dv' cds && (dv'.all fun x => pv'.contains x) == cds.all (·.isSome))
         (if dv' == pv' then "same-order" else if dv'.length == pv'.length then "reordered" else "resized")
     | _, _ => bad "catder-args"
+  | some (.list [.atom "lay", .list [.atom helper, lay, sh, vs, extra], pyout]) =>
+    match layout? lay, ndArr? sh vs with
+    | some l, some a => stepLay helper l a vs extra pyout
+    | _, _ => bad "lay-args"
   | _ => bad "unknown-family"
 
 def main : IO Unit := driverLoop step
